@@ -98,6 +98,8 @@ def denote(spec, rows):
     name = None if q is None else q["name"]
     if k in ("Sum", "Average", "Deviate", "Minimize", "Maximize", "Bag"):
         vals = []
+        if k == "Bag" and spec["range"] not in ("S", "N"):
+            raise Unsupported("vector Bag")
         for d, w in rows:
             v = evalq(q["e"], d)
             if k == "Bag" and spec["range"] == "S":
